@@ -92,7 +92,7 @@ impl Prop for C14 {
         "C14"
     }
     fn phases(&self, tier: Tier) -> Vec<PhaseSpec> {
-        vec![ph("knot vectors x all basis indices x derivative orders x evaluation points", tier.pick(1_200, 60_000))]
+        vec![ph("knot vectors x all basis indices x derivative orders x evaluation points", tier.pick(3_000, 100_000))]
     }
     fn required_classes(&self, _tier: Tier) -> Vec<String> {
         let mut v = vec![];
